@@ -279,7 +279,40 @@ const A_DY: [f64; 8] = [-3.0, -1.0, -0.5, 0.0, 0.25, 1.0, 2.0, 1000.0];
 const A_ND: [f64; 6] = [0.1, 0.3, 1.1, 1e-3, 123.456, 1e10 + 0.1];
 const BV: [f64; 5] = [-2.0, 0.0, 0.25, 1.0, 1000.0];
 
+/// streaming states beyond the t -> normal switch (and just below it)
+fn judge_large(n: usize, levels: &[f64], s: &mut Sink) {
+    let pat = [1.0, 2.0, 3.0, 0.5];
+    let mut a = Arithmetic::<f64>::new();
+    for i in 0..n {
+        StatisticsOps::append(&mut a, pat[i % 4]).unwrap();
+    }
+    judge_family(
+        &Spec { producer: "Arithmetic(large n)", u: 1.2e-16, ranks: false, far_ends: None, estimate: a.sample_mean(), crit_noise: 1e-7 },
+        &|k, l| a.ci_mean(conf(k, l)).ok().map(|iv| shape(&iv)),
+        levels,
+        &|| format!("Arithmetic<f64> streaming state with n={n}"),
+        &|k, l, rel| json!({"check":"large","n":n,"kind":k,"level":l,"relation":rel}),
+        s,
+    );
+    // unpaired with about n/2 observations per side (effective dof ~ n)
+    let mut u = Unpaired::<f64>::default();
+    for i in 0..n / 2 + 3 {
+        u.append_a(pat[i % 4]).unwrap();
+        u.append_b(pat[(i + 1) % 4] * 1.5).unwrap();
+    }
+    let est = u.stats_a().sample_mean() - u.stats_b().sample_mean();
+    judge_family(
+        &Spec { producer: "Unpaired(large n)", u: 1.2e-16, ranks: false, far_ends: None, estimate: est, crit_noise: 1e-7 },
+        &|k, l| u.ci_mean(conf(k, l)).ok().map(|iv| shape(&iv)),
+        levels,
+        &|| format!("Unpaired<f64> streaming state with {} observations per side", n / 2 + 3),
+        &|k, l, rel| json!({"check":"large","n":n,"kind":k,"level":l,"relation":rel}),
+        s,
+    );
+}
+
 enum Job {
+    Large(usize),
     Mean(Vec<f64>, bool),
     Pair(Vec<f64>, Vec<f64>, bool),
     Counts(usize),
@@ -319,11 +352,15 @@ fn run(tier: Tier) -> Sink {
             }
         }
     }
+    for n in [99_000usize, 100_000, 100_001, 101_500, 250_000] {
+        jobs.push(Job::Large(n));
+    }
     for n in 4..=tier.pick(60, 120) {
         jobs.push(Job::Counts(n));
         jobs.push(Job::Quant(n));
     }
     par_judge(&jobs, |j, s| match j {
+        Job::Large(n) => judge_large(*n, &levels, s),
         Job::Mean(x, false) => judge_mean_sample::<f64>(x, &levels, s),
         Job::Mean(x, true) => judge_mean_sample::<f32>(x, &levels, s),
         Job::Pair(a, b, false) => judge_pair_sample::<f64>(a, b, &levels, s),
@@ -363,6 +400,7 @@ fn replay_case(case: &Value, s: &mut Sink) {
                 judge_pair_sample::<f64>(&a, &b, &levels, s)
             }
         }
+        "large" => judge_large(case["n"].as_u64().unwrap() as usize, &levels, s),
         "counts" => judge_counts(case["n"].as_u64().unwrap() as usize, case["k"].as_u64().unwrap() as usize, &levels, s),
         _ => judge_quantile(case["n"].as_u64().unwrap() as usize, case["q"].as_f64().unwrap(), &levels, s),
     }
@@ -379,7 +417,7 @@ fn main() {
     s.sample(json!({"check":"mean","producer":"Arithmetic","type":"f64","xs":[0.25,1000.0,-3.0],"relations":["Upper(0.96875).low == TwoSided(0.9375).low bit-exactly (dyadic)","CI(L1) inside CI(L2) for all L1<L2 of the grid","mean inside for two-sided and one-sided L>=1/2","kind/shape"]}));
     s.sample(json!({"check":"counts","producer":"proportion::ci","n":30,"k":7,"relations":["upper request -> [lo,1]","lower -> [0,hi]","k/n inside","nesting","coincidence within 4ulp+1e-13 h"]}));
     s.sample(json!({"check":"quantile","n":57,"q":0.30303,"relations":["ranks of Upper(0.875) == ranks of TwoSided(0.75) exactly","rank round(q n) within one position","nesting of ranks, no slack"]}));
-    rep.rule = format!("producers Arithmetic/Geometric/Harmonic/Paired/Unpaired (f64,f32), proportion::ci, ci_z_normal, quantile::ci_indices, quantile::ci; inputs: sequences of length 2..{} over dyadic / non-dyadic / positive alphabets, all sample pairs of length 2..{} over a 5-value alphabet, every (n,k) and 33 quantiles for n<={}; for each input the full table over {} levels x 3 kinds, all ordered level pairs, and the two-sided interval at 2L-1 for every one-sided L>1/2; distinct by (producer, kind, result kind, L>1/2)", tier.pick(3, 4), tier.pick(2, 3), tier.pick(60, 120), mc::levels(tier).len());
+    rep.rule = format!("producers Arithmetic/Geometric/Harmonic/Paired/Unpaired (f64,f32; Arithmetic and Unpaired also as streaming states with 99 000..250 000 observations, on both sides of the t->normal switch), proportion::ci, ci_z_normal, quantile::ci_indices, quantile::ci; inputs: sequences of length 2..{} over dyadic / non-dyadic / positive alphabets, all sample pairs of length 2..{} over a 5-value alphabet, every (n,k) and 33 quantiles for n<={}; for each input the full table over {} levels x 3 kinds, all ordered level pairs, and the two-sided interval at 2L-1 for every one-sided L>1/2; distinct by (producer, kind, result kind, L>1/2)", tier.pick(3, 4), tier.pick(2, 3), tier.pick(60, 120), mc::levels(tier).len());
     rep.assume("coincidence is demanded bit-exactly on dyadic levels (2L-1 and the quantile mapping are exact there); on other levels within 4 ulp + (1e-13 + n) x half-width, n = 1e-7 for t-based producers because the crate refines its t quantile only to a 1e-12 cdf residual and the two calls start from quantiles one ulp apart");
     rep.assume("harmonic intervals are claimed only where the reciprocal-space interval is strictly positive (C05)");
     rep.require(s.counter("dyadic-exact-coincidence-checks") > 1000, "fewer than 1000 exact coincidence checks");
